@@ -86,6 +86,7 @@ int main(int argc, char **argv) {
     auto work = [&](uint64_t u, uint64_t) { one(cases[u], false); };
     auto describe = [&](uint64_t, uint64_t, uint64_t) { return std::make_pair(std::string("mcb-dimacs-mpi"), std::string("?")); };
     double t0 = vr::now_s();
+    A.has("out"); A.require_all_used();
     auto res = R.run(cases.size(), work, describe);
     double wall = vr::now_s() - t0;
     FILE *o = A.has("out") ? fopen(A.get("out").c_str(), "w") : stdout;
